@@ -119,6 +119,9 @@ theorem memberStep_no_crash (c : Val) (name : Bytes) (site : String) : memberSte
 theorem co_memberOf (c : Val) (name : Bytes) : CrashOnly (memberOf c name) := by
   intro s site h
   exact absurd h (memberStep_no_crash c name site)
+theorem co_mapKeyMissing (l i : Val) : CrashOnly (mapKeyMissing l i) := by
+  unfold mapKeyMissing
+  repeat (any_goals (first | split | exact co_heapMap _ | co_leaf1 | co_leaf2 | refine co_bind ?_ (fun _ => ?_) | dsimp only))
 
 attribute [local irreducible] Store.newChild Store.injectHelpers Store.newRoot
 
@@ -190,7 +193,7 @@ macro "crashonly_ih" ih:ident : tactic =>
     | co_ih1 $ih
     | co_ih2 $ih
     | exact co_heapSlice _ | exact co_heapMap _ | exact co_renderVal _ | exact co_applyOpOut _ _
-    | exact co_applyInfix _ _ _ | exact co_updateIndex _ _ _ | exact co_accessIndex _ _ _ | exact co_memberOf _ _
+    | exact co_applyInfix _ _ _ | exact co_updateIndex _ _ _ | exact co_accessIndex _ _ _ | exact co_memberOf _ _ | exact co_mapKeyMissing _ _
     | (refine co_forM _ _ (fun _ => ?_)) | (refine co_mapM _ _ (fun _ => ?_))
     | (refine co_withCtx _ _ ?_)
     | refine co_attempt ?_
